@@ -123,8 +123,8 @@ class MindsDBLexer(Lexer):
     ANOMALY = r'\bANOMALY\b'
     DETECTION = r'\bDETECTION\b'
 
-    KNOWLEDGE_BASE = r'\bKNOWLEDGE[_|\s]BASE\b'
-    KNOWLEDGE_BASES = r'\bKNOWLEDGE[_|\s]BASES\b'
+    KNOWLEDGE_BASE = r'\bKNOWLEDGE[_\s]BASE\b'
+    KNOWLEDGE_BASES = r'\bKNOWLEDGE[_\s]BASES\b'
     SKILL = r'\bSKILL\b'
     AGENT = r'\bAGENT\b'
 
@@ -164,7 +164,7 @@ class MindsDBLexer(Lexer):
     STATUS = r'\bSTATUS\b'
     GLOBAL = r'\bGLOBAL\b'
     PROCEDURE = r'\bPROCEDURE\b'
-    PRIMARY_KEY = r'\bPRIMARY[_|\s]KEY\b'
+    PRIMARY_KEY = r'\bPRIMARY[_\s]KEY\b'
     DEFAULT = r'\bDEFAULT\b'
     FUNCTION = r'\bFUNCTION\b'
     INDEX = r'\bINDEX\b'
